@@ -75,3 +75,18 @@ def compile_text(text: str, spec: str):
     except Exception as e:
         raise Rejected("pipeline", e)
     return mod
+
+
+_XDMA_REGISTERED = []
+
+
+def ensure_xdma():
+    """snax_xdma is only registered through a system configuration file (yaml, not available here): register it with its default streamer configuration"""
+    if not _XDMA_REGISTERED:
+        from snaxc.accelerators.snax_xdma import SNAXXDMAAccelerator
+
+        try:
+            ctx().register_accelerator("snax_xdma", lambda: SNAXXDMAAccelerator())
+        except Exception:
+            pass
+        _XDMA_REGISTERED.append(1)
